@@ -1317,7 +1317,8 @@ _CHAINS = {
             ('R05.12', 'plumbing', lambda c: _plumbing(c, (_ISI, _SPK, _SYN, _DIR), 'R05.12'))],
     'C06': [('R06.11', 'plumbing', lambda c: _plumbing(c, (_ISI, _SPK, _SYN), 'R06.11')),
             ('R06.12', 'class_ops', lambda c: _layer_class_ops(c, 'R06.12')),
-            ('R06.13', 'reconcile', lambda c: _layer_reconcile(c, (_ISI, _SPK, _SYN), 'R06.13'))],
+            ('R06.13', 'reconcile', lambda c: _layer_reconcile(c, (_ISI, _SPK, _SYN), 'R06.13')),
+            ('R06.14', 'avrg', lambda c: _class_averages(c, 'R06.14'))],
     'C07': [('R07.10', 'avrg', lambda c: _class_averages(c, 'R07.10')),
             ('R07.11', 'reconcile', lambda c: _layer_reconcile(c, (_ISI, _SPK, _SYN, _DIR), 'R07.11')),
             ('R07.12', 'discrete_defs', lambda c: _layer_discrete_defs(c, 'R07.12'))],
@@ -1328,7 +1329,8 @@ _CHAINS = {
             ('R08.8', 'aux', lambda c: _nonempty_aux(c, 'R08.8')),
             ('R08.10', 'reconcile', lambda c: _layer_reconcile(c, (_ISI, _SPK, _SYN, _DIR), 'R08.10')),
             ('R08.11', 'plottable', lambda c: _layer_plottable(c, 'R08.11')),
-            ('R08.12', 'discrete_defs', lambda c: _layer_discrete_defs(c, 'R08.12'))],
+            ('R08.12', 'discrete_defs', lambda c: _layer_discrete_defs(c, 'R08.12')),
+            ('R08.13', 'avrg', lambda c: _class_averages(c, 'R08.13'))],
     'C10': [('R10.7', 'ownership', lambda c: r09_2_ownership(c, 'R10.7', {'PieceWiseConstFunc', 'PieceWiseLinFunc'}))],
     'C12': [('R12.8', 'avrg', lambda c: _class_averages(c, 'R12.8')),
             ('R12.9', 'plumbing', lambda c: _plumbing(c, (_ISI, _SPK, _SYN, _DIR), 'R12.9')),
